@@ -101,6 +101,11 @@ func MarshalDocument(doc *Document, url *URL) ([]byte, error) {
 	case Identifier:
 		data, err = json.Marshal(d)
 	case Identifiers:
+		if d == nil {
+			// An empty list, not null (which means no data).
+			d = Identifiers{}
+		}
+
 		data, err = json.Marshal(d)
 	default:
 		if doc.Data != nil {
